@@ -62,4 +62,13 @@ def staticNodeByType (cores : List CoreTy) (i : Nat) : Node :=
   | some c => if c.shared then .shared (indexOf c (sharedCores cores)) else .unique (indexOf c (uniqueUnique cores))
   | none => .ordered i
 
+/-- a "simplified" `TranslateIndexImpl` that does not consume the target tuple while walking the pack: it counts the preceding
+    cores whose type equals the FIRST shared core type only -/
+def translateIndexNoConsume : Nat → Nat → List CoreTy → List CoreTy → Nat
+  | 0, toIdx, _, _ => toIdx
+  | _ + 1, toIdx, [], _ => toIdx
+  | k + 1, toIdx, _ :: fr, [] => translateIndexNoConsume k toIdx fr []
+  | k + 1, toIdx, f :: fr, t :: tos =>
+      translateIndexNoConsume k (toIdx + (if f = t then 1 else 0)) fr (t :: tos)
+
 end Yaclib.When.Nodes
